@@ -415,7 +415,7 @@ def _execute(scenario: dict) -> dict:
                     from sigma.validators.core import validators
 
                     coll = world.w.load_collection([scenario["documents"][d] for d in op["docs"]])
-                    v = SigmaValidator([c for n, c in sorted(validators.items()) if "attack" not in n and "d3fend" not in n])
+                    v = SigmaValidator([c for n, c in sorted(validators.items()) if "attack" not in n and "d3" not in n])
                     return len(v.validate_rules(coll))
 
                 r = world.w.capture(call2)
